@@ -649,7 +649,7 @@ func (p *Path) arrayAt(ptr PtrV, write bool) *ArrayV {
 		if e.sym != nil {
 			panic(unsupportedf("symbolic path to array"))
 		}
-		cur = elemOf(cur, e.i)
+		cur = stepElem(cur, e)
 	}
 	a, ok := cur.(*ArrayV)
 	if !ok {
